@@ -145,7 +145,7 @@ def main(argv=None):
                 continue
             n_viol += 1
             c = cfg_by_key[r["cfg"]]
-            rec = {"property": prop, "cfg": r["cfg"], "fn": c["fn"], "params": c.get("params", {}), "seed": c.get("seed", 0), "obligation": v["obligation"], "detail": v.get("detail"), "float_detail": v.get("float_detail"), "path": v.get("path"), "inputs": r.get("inputs")}
+            rec = {"property": prop, "cfg": r["cfg"], "fn": c["fn"], "params": c.get("params", {}), "seed": v.get("seed", c.get("seed", 0)), "obligation": v["obligation"], "detail": v.get("detail"), "float_detail": v.get("float_detail"), "path": v.get("path"), "inputs": r.get("inputs")}
             dig = hashlib.sha1(json.dumps([rec["cfg"], rec["obligation"]], sort_keys=True).encode()).hexdigest()[:10]
             path = os.path.join(ROOT, "replays", f"{prop}-{dig}.json")
             with open(path, "w") as fh:
